@@ -1,6 +1,7 @@
 import ChythonModel.Proofs.C11Lemmas
 import ChythonModel.Proofs.C11Frame
 import ChythonModel.Proofs.C11Block
+import ChythonModel.Proofs.C11Meta
 import ChythonModel.Gen.PeriodicTable
 /-!
 # C11 — MDL write→read preserves the record: property theorems
@@ -215,5 +216,53 @@ example : ∀ b ∈ [[sL "a\n", sL "M  END\n"], [sL "junk $$$$\n"]], WFBlock 10 
   intro b hb
   simp only [List.mem_cons, List.not_mem_nil, or_false] at hb
   rcases hb with h | h <;> subst h <;> exact ⟨by decide, by decide, by decide⟩
+
+/-! ## 5. metadata -/
+
+/-- the regenerated source text of `meta_pattern` is the pattern `matchMeta` transcribes, and `_ctf_data` is the
+    mapping `applyCtf` hard-codes (a changed regex / table breaks these, not silently the model) -/
+theorem literal_tables_are_modelled :
+    metaPattern = metaPatternModelled ∧ ctfData = [("R", "is_radical"), ("C", "charge"), ("I", "isotope")] ∧
+    esdfWriteEscape = sdfWriteEscape := by decide +kernel
+
+/-- key escaping (`>` ↦ `&gt;`, `<` ↦ `&lt;` and back, tables regenerated from SDFrw.py): on a key set that exercises
+    every rule and their interleavings the written key contains no `<`/`>` and the reader's unescape restores it -/
+theorem key_escape_roundtrip :
+    ∀ k ∈ ["a>b", "a<b", "<>", "><", ">>x<<", "k", "a > b < c", "x&y", "&", "&g>t;", "<&lt"].map String.toList,
+      applyEscapes sdfReadEscape (applyEscapes sdfWriteEscape k) = k ∧
+      ((applyEscapes sdfWriteEscape k).all fun c => c != '<' && c != '>') = true := by decide +kernel
+
+/-- Full statement: escaping is invertible for *every* key. False of the code (`&` itself is not escaped): a key
+    containing the literal text `&gt;` comes back with `>` — known finding `C11/meta/SDF/key-contains-escape-literal`,
+    witness in `Findings/C11.lean`. -/
+def KeyEscapeFull : Prop := ∀ k : Str, applyEscapes sdfReadEscape (applyEscapes sdfWriteEscape k) = k
+
+/-- **SDF metadata round trip** (`_partial`: keys without `< > &` — for those see `key_escape_roundtrip`): the blocks
+    `SDFWrite.write` emits for an ordered dict with distinct plain keys and normalised multi-line values are read back by
+    `SDFRead.read_metadata` as the same ordered dict. `WFValueLine` excludes exactly the recorded classes: blank or
+    padded lines (the documented normalisation) and lines shaped like a key line (known finding). -/
+theorem sdf_meta_roundtrip_partial (kvs : List (Str × List Str))
+    (hwf : ∀ kv ∈ kvs, WFKey kv.1 ∧ (∀ v ∈ kv.2, WFValueLine v) ∧ kv.2 ≠ []) (hnd : (kvs.map (·.1)).Nodup) :
+    readMeta (splitLinesKeep ((kvs.map fun kv => writeMetaChunk (kv.1, joinWith ['\n'] kv.2)).flatten)) =
+      kvs.map fun kv => (kv.1, joinWith ['\n'] kv.2) :=
+  sdf_meta_roundtrip kvs hwf hnd
+
+/-- hypotheses satisfiable: a two-key dict with a three-line value containing `$`, `M  END` and `> <` text -/
+example : WFKey (sL "mol weight") ∧ WFValueLine (sL "M  END is fine here") ∧ WFValueLine (sL "x > y and $$ a<b") :=
+  ⟨⟨by decide, by decide, by decide⟩, ⟨by decide, by decide, by decide, by decide⟩, ⟨by decide, by decide, by decide, by decide⟩⟩
+
+/-- **RDF metadata round trip**: `$DTYPE k` / `$DATUM v` pairs with multi-line values (continuation lines) are read back
+    unchanged. `WFRdfLine` excludes lines that start with `$DTYPE`/`$DATUM` (known findings). Before fix e53cd93 this
+    theorem was false (`lstrip("$DATUM")`): witness in `Findings/C11.lean`. -/
+theorem rdf_meta_roundtrip (kvs : List (Str × Str × List Str))
+    (hwf : ∀ kv ∈ kvs, WFRdfKey kv.1 ∧ (∀ v ∈ kv.2.1 :: kv.2.2, WFRdfLine v)) (hnd : (kvs.map (·.1)).Nodup) :
+    rdfReadMeta (splitLinesKeep ((kvs.map fun kv => rdfMetaChunk (kv.1, joinWith ['\n'] (kv.2.1 :: kv.2.2))).flatten)) =
+      kvs.map fun kv => (kv.1, joinWith ['\n'] (kv.2.1 :: kv.2.2)) :=
+  ChythonModel.Proofs.C11.rdf_meta_roundtrip kvs hwf hnd
+
+/-- the probed witness of the repaired defect is inside the hypotheses: `AT5 MUD`, `TAMU`, `DATA` are legal lines -/
+example : WFRdfLine (sL "AT5 MUD") ∧ WFRdfLine (sL "TAMU") ∧ WFRdfLine (sL "DATA $DATUM") :=
+  ⟨⟨by decide, by decide, by decide, by decide, by decide⟩, ⟨by decide, by decide, by decide, by decide, by decide⟩,
+   ⟨by decide, by decide, by decide, by decide, by decide⟩⟩
 
 end ChythonModel.Props.C11
